@@ -279,6 +279,13 @@ Theorem C10_error_variants_in_sync :
 Proof. exact ErrNames.variants_in_sync. Qed.
 Print Assumptions C10_error_variants_in_sync.
 
+(* The manager writes into a peer's address store at exactly five places (extracted from
+   src/transport/manager/*.rs on every check), each covered by a model operation (see ErrNames.v);
+   no code path replaces or removes a peer's context. *)
+Theorem C10_store_sites_in_sync : ErrNames.model_store_sites = DialErrors.store_sites.
+Proof. exact ErrNames.store_sites_in_sync. Qed.
+Print Assumptions C10_store_sites_in_sync.
+
 Theorem C10_error_kinds_enumerated :
   forall e, In e all_dial_errors /\ err_of_code (err_code e) = Some e.
 Proof. intro e. split; [apply all_dial_errors_complete | apply err_code_roundtrip]. Qed.
